@@ -9,7 +9,8 @@ PROPERTY = "C04"
 RULE = (
     "cases = (formula, frame): formulas are right-hand sides of main effects, interactions (any arity and factor "
     "order, also spelled with * / ** and parenthesised sums) and group items over plain numeric variables, plain "
-    "categorical variables (str / Categorical / ordered Categorical) and C(k) on an integer column; frames have drawn "
+    "categorical variables (str / Categorical / ordered Categorical), C(k) on an integer column and, in a quarter of the cases, "
+    "the three-column numeric component bs(z, df=3); frames have drawn "
     "row counts, unequal level counts, drawn column order and index; distinct = distinct (formula, frame); non-trivial "
     "= an interaction of two categorical factors with different level counts, or a group item with a categorical "
     "effect, or an ordered categorical factor"
@@ -22,6 +23,7 @@ ASSUMPTIONS = [
 
 CATS = ("f", "g", "h", "C(k)", "T(f, 'a')", "C(g, Treatment('g1'))", "T(h, 'mid')")
 NUMS = ("x", "z")
+WIDE_NUMS = ("bs(z, df=3)",)
 GROUP_FACTORS = ("g", "h", "C(k)", "k", (":", ("var", "g"), ("var", "h")), (":", ("var", "h"), ("var", "f")),
                  ("+", ("var", "g"), ("var", "h")), ("/", ("var", "g"), ("var", "C(k)")), ("+", ("var", "h"), ("var", "C(k)")))
 
@@ -29,7 +31,11 @@ GROUP_FACTORS = ("g", "h", "C(k)", "k", (":", ("var", "g"), ("var", "h")), (":",
 @st.composite
 def case_strategy(draw):
     spec = draw(frames.random_frame(cat_vars=("f", "g", "h"), num_vars=("x", "z"), int_vars=("k",), min_rows=5, max_rows=30))
-    items = draw(designs.rhs_items(CATS, NUMS, GROUP_FACTORS, max_items=3, max_leaves=4))
+    nums = NUMS
+    zcol = [c for c in spec["cols"] if c["name"] == "z"]
+    if zcol and len(set(zcol[0]["values"])) >= 4 and draw(st.integers(0, 3)) == 0:
+        nums = NUMS + WIDE_NUMS  # a numeric component of several columns: `f[b]:bs(z, df=3)[1]` is a product like any other
+    items = draw(designs.rhs_items(CATS, nums, GROUP_FACTORS, max_items=3, max_leaves=4))
     return {"items": items, "response": "y", "frame": spec}
 
 
@@ -93,6 +99,8 @@ def judge(ctx, case):
             classes.append("dtype:" + ("ordcat" if c.get("ordered") else c["kind"]))
     if spec.get("index") is not None:
         classes.append("index:custom")
+    if any(a in WIDE_NUMS for a in atoms):
+        classes.append("wide_numeric_component")
     ctx.count(core.canon([formula, spec]), nontrivial(case, spec), sorted(set(classes)), sample={"formula": formula, "frame": spec},
               stratum=classes[0])
     full = dict(case, formula=formula)
